@@ -669,6 +669,115 @@ def node_kind_in_identity(ctx, i):
     ctx.case({"node-kind-identity": [o[0] for o in order][:2], "b": type(backend).__name__}, True)
 
 
+_REBUILD_FAIL = [None]
+
+
+def _rebuild_value(payload):
+    """Reconstruction hook of _Shaped (module level, so the pickle is authentic and loadable)."""
+    if _REBUILD_FAIL[0] is not None:
+        raise _REBUILD_FAIL[0]("the class changed shape since this entry was written")
+    return _Shaped(payload)
+
+
+class _Shaped:
+    def __init__(self, payload):
+        self.payload = payload
+
+    def __reduce__(self):
+        return (_rebuild_value, (self.payload,))
+
+    def __eq__(self, other):
+        return isinstance(other, _Shaped) and other.payload == self.payload
+
+
+def stale_class_entries(ctx, i):
+    """An AUTHENTIC disk entry (payload and signature untouched) whose value can no longer be rebuilt because its class
+    changed between the writing and the reading process - reconstruction raises TypeError / ValueError / OSError /
+    KeyError / RuntimeError: a miss like any other unusable entry (no exception), and the key heals with the next store."""
+    from hypergraph import DiskCache
+
+    tmp = tempfile.mkdtemp(prefix="hgc09-", dir=os.path.join(core.VERIF, ".work"))
+    dc = DiskCache(tmp)
+    try:
+        for exc_cls in (TypeError, ValueError, OSError, KeyError, RuntimeError, AttributeError, ImportError):
+            key = "k-" + exc_cls.__name__
+            dc.set(key, {"o": _Shaped(exc_cls.__name__)})
+            _REBUILD_FAIL[0] = None
+            hit0, val0 = dc.get(key)
+            _REBUILD_FAIL[0] = exc_cls
+            try:
+                hit, val, exc = (*dc.get(key), None)
+            except BaseException as e:  # noqa: BLE001
+                hit, val, exc = None, None, e
+            finally:
+                _REBUILD_FAIL[0] = None
+            ctx.obs["stale_class_entries_checked"] += 1
+            ctx.obs["fault:stale-class"] += 1
+            case = {"program": "authentic entry whose value cannot be rebuilt", "raises": exc_cls.__name__}
+            if not hit0 or val0 != {"o": _Shaped(exc_cls.__name__)}:
+                ctx.inconc("the stale-class probe entry did not round-trip before the class change")
+                continue
+            if exc is not None:
+                ctx.violation("C09:fault-raised:stale-class", f"get() of an authentic entry whose reconstruction raises {exc_cls.__name__} raised {exc!r} instead of reporting a miss", case)
+            elif hit:
+                ctx.violation("C09:fault-served-wrong-value:stale-class", f"get() served {core.short(val)} although the value could not be rebuilt", case)
+            else:
+                dc.set(key, {"o": "recomputed"})
+                if dc.get(key) != (True, {"o": "recomputed"}):
+                    ctx.violation("C09:entry-not-restored-after-fault:stale-class", f"after the miss ({exc_cls.__name__}) the value was stored again, yet the next lookup gave {dc.get(key)}", case)
+    finally:
+        _drop_backend(dc, tmp)
+    ctx.case({"stale-class-entries": True}, True)
+
+
+def cached_loop_history(ctx, i):
+    """Loop templates with cache=True on body nodes and gates, run several times on ONE cache by the sync and the async
+    runner: every run - first (cold), second (all hits) and third - ends with the values of the uncached loop. In a
+    cycle a cached node can be ready in the same step as a producer of one of its inputs; what a hit is booked against
+    decides whether it is recomputed when that input changes."""
+    from hypergraph import InMemoryCache
+
+    from hgmon import loops
+
+    rng = ctx.rng
+    N = rng.randint(2, 4)
+    cands = [t for t in loops.systematic_templates(N) if not any(ns["k"] == "sub" for ns in t["spec"]["nodes"]) and not t["ref"].get("mechanism")]
+    cands.append(_observer_loop(N))
+    t = rng.choice(cands)
+    spec = copy.deepcopy(t["spec"])
+    for ns in spec["nodes"]:
+        if rng.random() < 0.7 and not ns.get("gen"):
+            ns["cache"] = True
+    case = {"program": "cached loop: " + t["template"], "spec": spec, "inputs": t["inputs"]}
+    for runner in ("sync", "async"):
+        cache = InMemoryCache()
+        for rep in range(3):
+            o = core.execute(core.with_async(spec, runner == "async", rng), t["inputs"], runner, cache=cache, sched=rt.Sched(default="rand", rng=rng) if runner == "async" else None, max_iterations=300)
+            ctx.obs["cached_runs_compared"] += 1
+            ctx.obs["cached_loop_runs"] += 1
+            if o.deadlock or o.inconclusive:
+                ctx.inconc(o.inconclusive or "deadlock")
+                break
+            if o.exc is not None or o.values != t["ref"]["values"]:
+                diff = sorted(k for k in set(o.values or {}) | set(t["ref"]["values"]) if (o.values or {}).get(k, "<absent>") != t["ref"]["values"].get(k, "<absent>"))
+                ctx.violation("C09:cached-differs-from-uncached:loop", f"{runner}, run {rep} on one cache, {t['template']}: {o.status} {o.exc!r}; differs from the uncached loop on {diff}: {core.short({k: (o.values or {}).get(k) for k in diff})} vs {core.short({k: t['ref']['values'].get(k) for k in diff})}", {**case, "runner": runner, "run": rep})
+                break
+    ctx.case({"cached-loop": t["template"], "N": N}, True)
+
+
+def _observer_loop(n_limit):
+    """inc(count)->count under a gate, observe(count)->seen (saturating flag), report(seen, count)->rep: `report`
+    becomes ready together with `inc` because `seen` arrived one step earlier than the next `count`."""
+    nodes = [
+        {"k": "fn", "name": "inc", "params": [{"n": "count"}], "outs": ["count"], "beh": ["inc", "count"]},
+        {"k": "route", "name": "loop_gate", "params": [{"n": "count"}], "targets": ["inc", "END"], "cond": ["lt", "count", n_limit], "then": "inc", "else": "END", "open": False},
+        {"k": "fn", "name": "observe", "params": [{"n": "count"}], "outs": ["seen"], "beh": ["const", True]},
+        {"k": "fn", "name": "report", "params": [{"n": "seen"}, {"n": "count"}], "outs": ["rep"], "beh": ["tuple", "seen", "count"]},
+    ]
+    final = max(n_limit, 0)
+    return {"spec": {"name": "obsloop", "nodes": nodes, "bind": {}}, "inputs": {"count": 0}, "ref": {"values": {"count": final, "seen": True, "rep": (True, final)}}, "template": "observer-loop"}
+
+
 def lru_recency(ctx, i):
     """Size-limited in-memory backend, directed history: with room for m entries, an entry that was just READ is the
     most recently used one, so the next insertion evicts some other entry and the read one is still served (documented
@@ -961,6 +1070,10 @@ def run(ctx):
             unpicklable_depth(ctx, i)
         elif i % 25 == 13:
             node_kind_in_identity(ctx, i)
+        elif i % 50 == 27:
+            stale_class_entries(ctx, i)
+        elif i % 10 == 8:
+            cached_loop_history(ctx, i)
         elif i % 20 == 12:
             permuted_wiring_identity(ctx, i)
         else:
